@@ -52,6 +52,7 @@ pub struct HState {
 	pub dead_seen: bool,
 	pub violations: Vec<(String, String)>,
 	pub quiescent_checks: u64,
+	pub model_steps: u64,
 }
 
 thread_local! {
@@ -321,6 +322,7 @@ async fn body(sc: &Sc, mons: &mon::Set) -> Obs {
 					simchild::note("dead", 0, 0, "");
 				}
 			}
+			simchild::note("quiescent", 0, 0, "");
 			mons.at_quiescence(sc, false);
 		}
 		let now = rt::now();
@@ -448,6 +450,7 @@ async fn body(sc: &Sc, mons: &mon::Set) -> Obs {
 	if livelock {
 		hs(|h| h.violations.push(("livelock".into(), "tasks kept waking each other for 20000 polls".into())));
 	} else {
+		simchild::note("quiescent", 1, 0, "");
 		mons.at_quiescence(sc, true);
 		mons.at_end(sc, task.is_finished());
 	}
@@ -455,7 +458,7 @@ async fn body(sc: &Sc, mons: &mon::Set) -> Obs {
 	drop(job);
 	let log = simchild::rendered_log();
 	let nontrivial = simchild::with(|w| w.spawned > 0);
-	let (violations, qc) = hs(|h| (std::mem::take(&mut h.violations), h.quiescent_checks));
+	let (violations, qc, ms) = hs(|h| (std::mem::take(&mut h.violations), h.quiescent_checks, h.model_steps));
 	task.abort();
-	Obs { log, violations, nontrivial, counters: vec![("quiescent_instants_checked", qc)] }
+	Obs { log, violations, nontrivial, counters: vec![("quiescent_instants_checked", qc), ("model_conformance_steps", ms)] }
 }
